@@ -37,6 +37,9 @@ def spec_quantile(vals, p):
     return out
 
 
+SORT_LENS = (3, 4, 5)
+
+
 def run(tier, seed):
     pr = Prover("C07", tier)
     cr = qr.load()
@@ -68,6 +71,14 @@ def run(tier, seed):
         for pv, want, nm in ((0, lo, "p0_is_min"), (1, hi, "p1_is_max")):
             pr.all_paths("%s.%s" % (pre, nm), fq, [(pp.pc + [p.eq(pv)], pp.result.eq(want)) for pp in live],
                          cls={"len": L, "accessor": "quantile"})
+    # A-LIB validation by Kani: the assumed contract of float_ord::sort on the sizes used
+    from kani_engine import KaniJob, Harness
+    job = KaniJob("C07", timeout=1200, harness_timeout=900)
+    job.include_module(F, "quantile.rs")
+    for k in SORT_LENS:
+        job.add(Harness("sort_floats_contract_%d" % k, "C07.lib.float_ord_sort.ascending_permutation[len=%d]" % k, "float_ord::sort as used by Quantile::{quantile,add}"))
+    if SORT_LENS:
+        pr.obs += job.run()
     meta = {
         "level": "proof",
         "checker_cmd": "./check C07 (rsx -> RS executor -> z3 QF_NRA/LRA)",
@@ -76,7 +87,7 @@ def run(tier, seed):
         "extraction": EXTRACTION,
         "trusted_base": ["rsx + RS executor (own code)", "z3 5.1"],
         "assumptions": [A_REAL, A_LIB,
-                        "A-LIB: float_ord::sort = ascending rearrangement of non-NaN values (executed as insertion sort by decisions), f64::ceil / max, core::cmp::min, easy_cast conv/conv_nearest exact on in-range integral values",
+                        "A-LIB: float_ord::sort = ascending rearrangement of non-NaN values (executed as insertion sort by decisions; this assumed contract is itself CHECKED bit-precisely by Kani for slice lengths 1..5, the only ones Quantile uses), f64::ceil / max, core::cmp::min, easy_cast conv/conv_nearest exact on in-range integral values",
                         "real semantics makes len*p exact, so 'within rounding of a whole number either convention is acceptable' is not needed and not decided",
                         "permutation invariance is implied: the oracle is a function of the sorted values (the specification's own min/max network), and the stored prefix is in arrival order"],
         "explanation": "one obligation family per len in 1..4 with symbolic values in arrival order and symbolic p in [0,1]; result compared on every path with the oracle written from the statement.",
